@@ -31,7 +31,8 @@ Stutter == UNCHANGED vars
 
 \* ---- LocalTask + attached monitor
 WCoarse(w) == CASE w = "none" -> "none" [] w \in {"new", "post", "fin", "epoch"} -> "r" [] w = "blocked" -> "b" [] w = "sys" -> "s" [] OTHER -> "d"
-ProjT == <<k, st, disp, rc, lock, WCoarse(wpc), fin, epoch, ev, opc, seen, sigs, late, lost,
+OCoarse == [o \in Observers |-> IF opc[o] = "saw" THEN "new" ELSE opc[o]]
+ProjT == <<k, st, disp, rc, lock, WCoarse(wpc), fin, epoch, ev, OCoarse, seen, sigs, late, lost,
            dm, tpc, tsaw, tval, cancel, timers, nact, nerr, terr, actc>>
 StepT(e) ==
   /\ Frozen1
@@ -64,7 +65,7 @@ StepP(e) ==
        [] OTHER -> FALSE
 
 \* ---- SimulatorTask
-RunCoarse(p) == CASE p = "cwait" -> "condwait" [] p \in {"new", "x1", "u1", "e2", "e3", "f1", "k1"} -> "ready" [] OTHER -> p
+RunCoarse(p) == CASE p = "cwait" -> "condwait" [] p \in {"new", "x1", "u1", "e2", "e2n", "e3", "f1", "k1", "e4", "rel"} -> "ready" [] OTHER -> p
 PollCoarse(p) == IF p \in {"new", "a", "b", "c"} THEN "ready" ELSE p
 ProjS == <<srs, srr, sos, sor, sfe, RunCoarse(srun), PollCoarse(spoll), snpoll, sfile, IF scall \in {"new", "k1"} THEN "ready" ELSE scall,
            CASE swait = "blocked" -> "evwait" [] swait = "new" -> "ready" [] OTHER -> swait, sseen, SimLockHeld, skills>>
